@@ -342,7 +342,59 @@ Section Table.
     intros T phis. apply (Forall2_Qeq_map_trans _ (mp_spec nt T)); [apply wire_model_is_spec, Hn|].
     intros phi. apply spec_is_table.
   Qed.
+
+  (* the verified checker judges the implementation's floats against the table formula; the proved properties of
+     the specification iterate are properties of the table formula *)
+  Theorem check_sound_table : forall T pvs, c17_checkb nt T pvs = true ->
+      forall phi v, In (phi, v) pvs -> v - mp_table nt T phi <= tol /\ mp_table nt T phi - v <= tol.
+  Proof.
+    intros T pvs Hck phi v Hin. destruct (c17_check_sound nt T pvs Hck phi v Hin) as [A [B _]].
+    rewrite <- (spec_is_table T phi). split; assumption.
+  Qed.
+
+  Theorem table_properties : forall T,
+      (forall phi, 0 <= phi <= 1 -> 0 <= mp_table nt T phi <= 1)
+      /\ (forall phi, phi == 0 -> (0 < T)%nat -> mp_table nt T phi == 0)
+      /\ (forall phi phi', 0 <= phi -> phi <= phi' -> phi' <= 1 -> mp_table nt T phi <= mp_table nt T phi').
+  Proof.
+    intros T.
+    assert (Hne : n_nodes nt <> []).
+    { unfold net_okb in Hn. apply andb_true_iff in Hn. destruct Hn as [_ H].
+      destruct (n_nodes nt); [discriminate H|discriminate]. }
+    split; [|split].
+    - intros phi Hphi. rewrite <- (spec_is_table T phi). apply spec_bounds; assumption.
+    - intros phi Hphi HT. rewrite <- (spec_is_table T phi). apply spec_zero; assumption.
+    - intros phi phi' A B C. rewrite <- (spec_is_table T phi), <- (spec_is_table T phi').
+      apply spec_monotone; assumption.
+  Qed.
 End Table.
+
+(* a solution of the message equations (table form) at the end points of every swept edge is a fixed point of the
+   table-based sweep; no precondition *)
+Theorem solution_is_fixed_point : forall nt phi H,
+    (forall i j id, In (i, j, id) (n_sweep nt) ->
+       H i id == expectation (motif_graph (find_motif nt id)) i phi (u_table nt H id)
+       /\ H j id == expectation (motif_graph (find_motif nt id)) j phi (u_table nt H id)) ->
+    Heq (sweep_T nt phi H) H.
+Proof.
+  intros nt phi H Hsol.
+  assert (Hstep : forall H' i id, Heq H' H ->
+            H i id == expectation (motif_graph (find_motif nt id)) i phi (u_table nt H id) ->
+            Heq (step_T nt phi H' i id) H).
+  { intros H' i id HH Hi v m. unfold step_T, upd.
+    destruct (Nat.eqb v i && Nat.eqb m id)%bool eqn:E; [|apply HH].
+    apply andb_true_iff in E. destruct E as [E1 E2]. apply Nat.eqb_eq in E1, E2. subst v m.
+    rewrite Hi. apply expectation_proper; [reflexivity|]. intros j. unfold u_table. apply qprod_ext.
+    intros x. apply HH. }
+  unfold sweep_T.
+  assert (G : forall l H', (forall e, In e l -> In e (n_sweep nt)) -> Heq H' H ->
+            Heq (fold_left (fun H e => let '(i, j, id) := e in step_T nt phi (step_T nt phi H i id) j id) l H') H).
+  { induction l as [|[[i j] id] l IH]; intros H' Hl HH; cbn [fold_left]; [exact HH|].
+    apply IH; [intros e He; apply Hl; right; exact He|].
+    destruct (Hsol i j id (Hl _ (or_introl eq_refl))) as [Hi Hj].
+    apply Hstep; [apply Hstep; assumption|exact Hj]. }
+  apply G; [auto|apply Heq_refl].
+Qed.
 
 (* ================================================================== *)
 (* 7. the cover precondition from the table alone: motifs pairwise share at most one vertex *)
